@@ -5,8 +5,8 @@ from pyvc import terms as t
 from pyvc.values import *  # noqa
 from pyvc import ghost
 
-ROUNDTRIP = ['Padded', 'Aligned', 'FixedSized', 'Prefixed', 'Const', 'Flag', 'Bytes', 'GreedyBytes', 'BytesInteger', 'BitsInteger', 'Default', 'IfThenElse']
-SIZED = ['Padded', 'Aligned', 'FixedSized', 'Prefixed', 'Const', 'Flag', 'Bytes', 'BytesInteger', 'BitsInteger', 'FormatField', 'IfThenElse', 'Default']
+ROUNDTRIP = ['Padded', 'Aligned', 'FixedSized', 'Prefixed', 'Const', 'Flag', 'Bytes', 'GreedyBytes', 'BytesInteger', 'BitsInteger', 'Default', 'IfThenElse', 'Switch', 'Rebuild', 'Computed', 'Pass']
+SIZED = ['Padded', 'Aligned', 'FixedSized', 'Prefixed', 'Const', 'Flag', 'Bytes', 'BytesInteger', 'BitsInteger', 'FormatField', 'IfThenElse', 'Default', 'Switch', 'Rebuild', 'Computed', 'Pass', 'Tell', 'Index']
 CANONICAL = []
 
 GREEDY = {'GreedyBytes'}
@@ -35,7 +35,12 @@ def _flag_domain(eng, st):
     st.assume(t.app('(_ is VBool)', t.BOOL, st.env['obj'].t))
 
 
-DOMAIN = {'Bytes': _bytes_domain, 'GreedyBytes': _bytes_domain, 'Flag': _flag_domain}
+def _none_domain(eng, st):
+    """value domain of Pass: None"""
+    st.assume(t.app('(_ is VNone)', t.BOOL, st.env['obj'].t))
+
+
+DOMAIN = {'Bytes': _bytes_domain, 'GreedyBytes': _bytes_domain, 'Flag': _flag_domain, 'Pass': _none_domain}
 HYPOTHESES = [
     'sub-constructs satisfy the round-trip trait: the bytes a successful build produced, standing at the parse position, parse back to the value build returned and end right after them (induction hypothesis of C01)',
     'sub-constructs satisfy the sized trait: when _sizeof answers n, successful builds append n bytes and successful parses advance by n (induction hypothesis of C05)',
